@@ -274,6 +274,17 @@ func jsonType(v reflect.Value) (string, bool) {
 		}
 		return "number", true
 	}
+	if v.Type() == jsonNumberType {
+		// A json.Number has kind string, but is a number.
+		r, ok := jsonNumber(v)
+		if !ok {
+			return "", false
+		}
+		if r.IsInt() {
+			return "integer", true
+		}
+		return "number", true
+	}
 	switch v.Kind() {
 	case reflect.Bool:
 		return "boolean", true
@@ -287,6 +298,8 @@ func jsonType(v reflect.Value) (string, bool) {
 		return "", false
 	}
 }
+
+var jsonNumberType = reflect.TypeFor[json.Number]()
 
 func assert(cond bool, msg string) {
 	if !cond {
